@@ -25,6 +25,7 @@ PENDING_FINDINGS = []
 
 UID = GID = 7301
 PROBE = os.path.join(BUILD, "standin_c13probe")
+RUNAS = os.path.join(BUILD, "standin_c13run")      # drops to UID/GID, then executes qmail-local
 PROBE_NAME = b"standin_c13probe"
 H = b"@H@"                       # stands for the home directory inside templates
 MSG0 = b"Subject: t\nX-A: b\n\nbody line\n.\n"
@@ -450,7 +451,7 @@ def random_cases(rng, count):
             names = [x if x not in ("p100", "p111", "phard", "psoft", "pcrash", "nodir", "mboxondir", "mdonfile") or rng.random() < 0.4 else "mbox" for x in names]
             body = b"".join(FORM[x](cb, rng) + b"\n" for x in names)
             files.append(F(nm, body, 0o600 if k == "symlink" else int(k[1:], 8), via=("symlink" if k == "symlink" else "")))
-        if rng.random() < 0.3:
+        if rng.random() < 0.3 and b"/" not in ext and b"\n" not in ext:
             files.append(F(candidates(dash, ext)[0] + b"-owner", b"", 0o600))
         local = rng.choice([None, None, None, b"u\nX: y", b"u z"])
         host = rng.choice([b"h.test", b"h.test", b"a.b.c.d"])
@@ -523,7 +524,7 @@ class Runner:
                 tgt = p
                 if f["via"] == "symlink":
                     tgt = os.path.join(home, b"real_" + f["nm"].replace(b"/", b"%"))
-                    os.symlink(os.path.basename(tgt), p)
+                    os.symlink(tgt, p)
                     os.lchown(p, UID, GID)
                     made.add(os.path.basename(tgt))
                 with open(tgt, "wb") as fh:
@@ -555,8 +556,7 @@ class Runner:
         try:
             return self._run(idx, c, D, home)
         finally:
-            subprocess.call(["chmod", "-R", "u+rwx", D], stderr=subprocess.DEVNULL)
-            shutil.rmtree(D, ignore_errors=True)
+            shutil.rmtree(D, ignore_errors=True)          # running as root: modes do not get in the way
 
     def _run(self, idx, c, D, home):
         before_home = set(os.listdir(home))
@@ -567,11 +567,10 @@ class Runner:
         envb = {k.encode(): v.encode() for k, v in env.items()}
         envb[b"VERIF_PROBE_LOG"] = os.path.join(D, b"plog")
         envb[b"VERIF_PROBE_WATCH"] = b"\n".join(watch)
-        argv = [self.tree.bin("qmail-local").encode()] + ([b"-n"] if c["n"] else []) + \
+        argv = [RUNAS.encode(), b"%d" % UID, b"%d" % GID, self.tree.bin("qmail-local").encode()] + ([b"-n"] if c["n"] else []) + \
                [b"u", home, c["local"], c["dash"], c["ext"], c["host"], c["sender"], subst(c["dflt"], home)]
         with open(os.path.join(D, b"msg"), "rb") as fin:
-            p = subprocess.Popen(argv, stdin=fin, stdout=subprocess.PIPE, stderr=subprocess.PIPE, env=envb, cwd="/",
-                                 user=UID, group=GID, extra_groups=[])
+            p = subprocess.Popen(argv, stdin=fin, stdout=subprocess.PIPE, stderr=subprocess.PIPE, env=envb, cwd="/")
             try:
                 out, err = p.communicate(timeout=30)
                 hung = False
@@ -657,7 +656,7 @@ def main():
     os.umask(0o022)
     ck = Check("C13", a.tier)
     thorough = a.tier == "thorough"
-    if not os.access(PROBE, os.X_OK):
+    if not os.access(PROBE, os.X_OK) or not os.access(RUNAS, os.X_OK):
         raise Infra("build/standin_c13probe missing: run setup.sh")
 
     # ---- model: three slices, side by side
@@ -676,6 +675,7 @@ def main():
             if res.distinct < 1000:
                 raise Infra("DotQmailP slice %s explored only %d states" % (sl, res.distinct))
 
+    log("C13: model runs done after %.0f s" % (time.time() - ck.t0))
     # ---- real code
     tree = build_tree(ck.scratch, split=3)
     rn = Runner(ck, tree)
@@ -707,7 +707,9 @@ def main():
         cases += default_cases(rng)
         cases += random_cases(rng, 6000 if thorough else 700)
     jobs = list(enumerate(cases, 1))
+    t1 = time.time()
     obs = sessions.pmap(rn.run, jobs)
+    log("C13: %d runs of qmail-local in %.0f s" % (len(jobs), time.time() - t1))
     qrecs = rn.qq.collect()
     hung = sum(1 for o in obs if o["hung"])
     if hung > max(2, len(jobs) // 100):
@@ -720,8 +722,10 @@ def main():
                   c["host"], c["sender"], c["dflt"], c["msg"]), nontrivial=True)
     recfile = ck.scratch.path("c13.ndjson")
     write_ndjson(recfile, recs)
+    t1 = time.time()
     bad, vres = tlc_validate_records("DotQmailRec", "DotQmailRec.cfg", recfile, len(recs), chunk=100, heap="8g")
     ck.add_tlc("DotQmailRec", vres)
+    log("C13: %d records judged by TLC in %.0f s" % (len(recs), time.time() - t1))
     ck.cov["traces_validated_against_impl"] = len(recs)
     ck.cov["families"] = fam
     ck.cov["outcomes"] = {str(k): sum(1 for o in obs if o["rc"] == k) for k in sorted({o["rc"] for o in obs})}
